@@ -994,6 +994,18 @@ class Interp:
                 return h.new_list(r_) if isinstance(r_, list) else r_
         if norm(fn) == 're.compile' and getattr(h, 'native_regex', False) and all(isinstance(a, (str, int)) for a in args):
             return ('regex', 'local', args[0], args[1] if len(args) > 1 else kwargs.get('flags', 0))
+        if norm(fn) in ('functools.reduce', 'reduce') and norm(fn) not in env and len(args) in (2, 3) and not kwargs:
+            # reduce(f, xs, init): f applied from the left
+            items_ = self.seq(args[1])
+            if len(args) == 2:
+                if not items_:
+                    raise Raised('TypeError', h.version, e.lineno)
+                acc_, items_ = items_[0], items_[1:]
+            else:
+                acc_ = args[2]
+            for x_ in items_:
+                acc_ = self.apply(args[0], [acc_, x_])
+            return acc_
         if isinstance(fn, ast.Name) and fn.id == 'map' and len(args) == 2 and 'map' not in env:
             return [self.apply(args[0], [x]) for x in self.seq(args[1])]
         if isinstance(fn, ast.Name) and fn.id == 'enumerate' and len(args) == 1:
